@@ -723,7 +723,17 @@ impl RtpTransport {
         crate::verif::sched("rtp.send.slot");
         let Some(session) = session else {
             if self.srtp_required {
+                #[cfg(rustrtc_verif)]
+                {
+                    let (vs, vq) = Self::vid_of_rtp(buf);
+                    self.vgate("send", false, "dropped", vs, vq);
+                }
                 return Err(anyhow::anyhow!("SRTP required but session not ready"));
+            }
+            #[cfg(rustrtc_verif)]
+            {
+                let (vs, vq) = Self::vid_of_rtp(buf);
+                self.vgate("send", false, "clear", vs, vq);
             }
             return self.transport.send(buf).await;
         };
@@ -746,6 +756,11 @@ impl RtpTransport {
             srtp.protect_rtp(&packet, &mut protected)?;
             protected
         };
+        #[cfg(rustrtc_verif)]
+        {
+            let (vs, vq) = Self::vid_of_rtp(&protected);
+            self.vgate("send", true, "protected", vs, vq);
+        }
         self.transport.send(&protected).await
     }
 
@@ -781,15 +796,39 @@ impl RtpTransport {
                     let mut srtp = session.lock();
                     let mut protected = vec![0; srtp.protected_rtp_len(&packet)];
                     srtp.protect_rtp(&packet, &mut protected)?;
+                    #[cfg(rustrtc_verif)]
+                    self.vgate(
+                        "send_rtp",
+                        true,
+                        "protected",
+                        packet.header.ssrc,
+                        packet.header.sequence_number as u32,
+                    );
                     protected
                 }
                 None => {
                     if self.srtp_required {
+                        #[cfg(rustrtc_verif)]
+                        self.vgate(
+                            "send_rtp",
+                            false,
+                            "dropped",
+                            packet.header.ssrc,
+                            packet.header.sequence_number as u32,
+                        );
                         debug!(
                             "RtpTransport: SRTP required but session not ready, dropping RTP send"
                         );
                         return Err(anyhow::anyhow!("SRTP required but session not ready"));
                     }
+                    #[cfg(rustrtc_verif)]
+                    self.vgate(
+                        "send_rtp",
+                        false,
+                        "clear",
+                        packet.header.ssrc,
+                        packet.header.sequence_number as u32,
+                    );
                     packet.marshal()?
                 }
             }
@@ -824,12 +863,18 @@ impl RtpTransport {
             if let Some(session) = &*session_guard {
                 let mut srtp = session.lock();
                 srtp.protect_rtcp(&mut raw)?;
+                #[cfg(rustrtc_verif)]
+                self.vgate("send_rtcp", true, "protected", Self::vssrc_of_rtcp(&raw), 0);
                 raw
             } else {
                 if self.srtp_required {
+                    #[cfg(rustrtc_verif)]
+                    self.vgate("send_rtcp", false, "dropped", Self::vssrc_of_rtcp(&raw), 0);
                     debug!("Failed to send PLI: SRTP required but session not ready");
                     return Err(anyhow::anyhow!("SRTP required but session not ready"));
                 }
+                #[cfg(rustrtc_verif)]
+                self.vgate("send_rtcp", false, "clear", Self::vssrc_of_rtcp(&raw), 0);
                 raw
             }
         };
@@ -846,16 +891,32 @@ impl RtpTransport {
         let Ok(mut raw) = marshal_rtcp_packets(packets) else {
             return;
         };
+        #[cfg(rustrtc_verif)]
+        let mut v_protected = false;
         {
             let session_guard = self.srtp_session.lock();
             if let Some(session) = &*session_guard {
                 if session.lock().protect_rtcp(&mut raw).is_err() {
                     return;
                 }
+                #[cfg(rustrtc_verif)]
+                {
+                    v_protected = true;
+                }
             } else if self.srtp_required {
+                #[cfg(rustrtc_verif)]
+                self.vgate("send_rtcp_sync", false, "dropped", Self::vssrc_of_rtcp(&raw), 0);
                 return;
             }
         }
+        #[cfg(rustrtc_verif)]
+        self.vgate(
+            "send_rtcp_sync",
+            v_protected,
+            if v_protected { "protected" } else { "clear" },
+            Self::vssrc_of_rtcp(&raw),
+            0,
+        );
         #[cfg(rustrtc_verif)]
         crate::verif::sched("rtp.send_rtcp_sync.emit");
         let _ = self.ice_conn().try_send(&raw);
@@ -907,8 +968,24 @@ impl RtpTransport {
                             "relay: SRTP protect_rtp failed, dropping"
                         );
                     }
+                    #[cfg(rustrtc_verif)]
+                    target.vgate(
+                        "bridge",
+                        true,
+                        "dropped",
+                        packet.header.ssrc,
+                        packet.header.sequence_number as u32,
+                    );
                     return None; // drop on protect error
                 }
+                #[cfg(rustrtc_verif)]
+                target.vgate(
+                    "bridge",
+                    true,
+                    "protected",
+                    packet.header.ssrc,
+                    packet.header.sequence_number as u32,
+                );
             } else if target.srtp_required {
                 let failures = target
                     .srtp_dropped_no_session
@@ -921,9 +998,25 @@ impl RtpTransport {
                         "relay: target SRTP required but session not ready, dropping"
                     );
                 }
+                #[cfg(rustrtc_verif)]
+                target.vgate(
+                    "bridge",
+                    false,
+                    "dropped",
+                    packet.header.ssrc,
+                    packet.header.sequence_number as u32,
+                );
                 return None; // session not ready → drop
             } else {
                 packet.marshal_into(marshal_buf);
+                #[cfg(rustrtc_verif)]
+                target.vgate(
+                    "bridge",
+                    false,
+                    "clear",
+                    packet.header.ssrc,
+                    packet.header.sequence_number as u32,
+                );
             }
         }
         #[cfg(rustrtc_verif)]
@@ -986,12 +1079,56 @@ impl RtpTransport {
     }
 }
 
+/// Verification events (H7): one `gate` event per decision of an SRTP gate.
+#[cfg(rustrtc_verif)]
+impl RtpTransport {
+    fn vgate(&self, op: &'static str, has_session: bool, outcome: &'static str, ssrc: u32, seq: u32) {
+        if !crate::verif::enabled() {
+            return;
+        }
+        crate::verif::emit(
+            "rtp",
+            self.transport.label.as_deref().unwrap_or(""),
+            "gate",
+            serde_json::json!({
+                "op": op,
+                "required": self.srtp_required,
+                "has_session": has_session,
+                "outcome": outcome,
+                "ssrc": ssrc,
+                "seq": seq,
+            }),
+        );
+    }
+
+    fn vssrc_of_rtcp(raw: &[u8]) -> u32 {
+        if raw.len() >= 8 {
+            u32::from_be_bytes([raw[4], raw[5], raw[6], raw[7]])
+        } else {
+            0
+        }
+    }
+
+    fn vid_of_rtp(raw: &[u8]) -> (u32, u32) {
+        if raw.len() >= 12 {
+            (
+                u32::from_be_bytes([raw[8], raw[9], raw[10], raw[11]]),
+                u16::from_be_bytes([raw[2], raw[3]]) as u32,
+            )
+        } else {
+            (0, 0)
+        }
+    }
+}
+
 #[async_trait]
 impl PacketReceiver for RtpTransport {
     async fn receive(&self, packet: Bytes, addr: SocketAddr, marshal_buf: &mut Vec<u8>) {
         let is_rtcp_packet = is_rtcp(&packet);
 
         if is_rtcp_packet {
+            #[cfg(rustrtc_verif)]
+            let mut v_has_session = false;
             let unprotected: Bytes = {
                 // Release the outer guard at once; hold the inner SRTP lock only
                 // around the unprotect. The plain (no-SRTP) branch keeps the
@@ -1001,11 +1138,17 @@ impl PacketReceiver for RtpTransport {
                 crate::verif::sched("rtp.recv_rtcp.slot");
                 match session {
                     Some(session) => {
+                        #[cfg(rustrtc_verif)]
+                        {
+                            v_has_session = true;
+                        }
                         let mut buf = packet.to_vec();
                         let mut srtp = session.lock();
                         match srtp.unprotect_rtcp(&mut buf) {
                             Ok(()) => Bytes::from(buf),
                             Err(e) => {
+                                #[cfg(rustrtc_verif)]
+                                self.vgate("recv_rtcp", true, "dropped", Self::vssrc_of_rtcp(&packet), 0);
                                 debug!("SRTP unprotect RTCP failed: {}", e);
                                 return;
                             }
@@ -1013,6 +1156,8 @@ impl PacketReceiver for RtpTransport {
                     }
                     None => {
                         if self.srtp_required {
+                            #[cfg(rustrtc_verif)]
+                            self.vgate("recv_rtcp", false, "dropped", Self::vssrc_of_rtcp(&packet), 0);
                             trace!(
                                 "Dropping packet because SRTP is required but session is not ready"
                             );
@@ -1022,6 +1167,15 @@ impl PacketReceiver for RtpTransport {
                     }
                 }
             };
+
+            #[cfg(rustrtc_verif)]
+            self.vgate(
+                "recv_rtcp",
+                v_has_session,
+                "accepted",
+                Self::vssrc_of_rtcp(&unprotected),
+                0,
+            );
 
             let listener = {
                 let guard = self.rtcp_listener.lock();
@@ -1047,6 +1201,8 @@ impl PacketReceiver for RtpTransport {
                 );
             }
         } else {
+            #[cfg(rustrtc_verif)]
+            let mut v_has_session = false;
             let rtp_packet = {
                 // Parse outside both session guards. The inner SRTP lock is
                 // held only while authenticating and decrypting the packet.
@@ -1055,6 +1211,10 @@ impl PacketReceiver for RtpTransport {
                 crate::verif::sched("rtp.recv_rtp.slot");
                 match session {
                     Some(session) => {
+                        #[cfg(rustrtc_verif)]
+                        {
+                            v_has_session = true;
+                        }
                         let packet = match packet.try_into_mut() {
                             Ok(packet) => packet,
                             Err(packet) => BytesMut::from(packet.as_ref()),
@@ -1068,6 +1228,8 @@ impl PacketReceiver for RtpTransport {
                                 match srtp.unprotect_rtp(srtp_packet) {
                                     Ok(rtp_packet) => rtp_packet,
                                     Err(error) => {
+                                        #[cfg(rustrtc_verif)]
+                                        self.vgate("recv_rtp", true, "dropped", ssrc, sequence as u32);
                                         let failures = self
                                             .srtp_unprotect_failures
                                             .fetch_add(1, Ordering::Relaxed)
@@ -1088,6 +1250,8 @@ impl PacketReceiver for RtpTransport {
                                 }
                             }
                             Err(e) => {
+                                #[cfg(rustrtc_verif)]
+                                self.vgate("recv_rtp", true, "dropped", 0, 0);
                                 trace!("SRTP parse failed: {}", e);
                                 return;
                             }
@@ -1095,6 +1259,11 @@ impl PacketReceiver for RtpTransport {
                     }
                     None => {
                         if self.srtp_required {
+                            #[cfg(rustrtc_verif)]
+                            {
+                                let (vs, vq) = Self::vid_of_rtp(&packet);
+                                self.vgate("recv_rtp", false, "dropped", vs, vq);
+                            }
                             trace!(
                                 "Dropping packet because SRTP is required but session is not ready"
                             );
@@ -1103,6 +1272,8 @@ impl PacketReceiver for RtpTransport {
                         match RtpPacket::parse_bytes(packet) {
                             Ok(rtp_packet) => rtp_packet,
                             Err(e) => {
+                                #[cfg(rustrtc_verif)]
+                                self.vgate("recv_rtp", false, "dropped", 0, 0);
                                 trace!("RTP parse failed: {}", e);
                                 return;
                             }
@@ -1110,6 +1281,15 @@ impl PacketReceiver for RtpTransport {
                     }
                 }
             };
+
+            #[cfg(rustrtc_verif)]
+            self.vgate(
+                "recv_rtp",
+                v_has_session,
+                "accepted",
+                rtp_packet.header.ssrc,
+                rtp_packet.header.sequence_number as u32,
+            );
 
             // Count every accepted inbound RTP packet at the transport layer.
             // This runs before the rewrite-bridge fast-path early-return, so
